@@ -15,6 +15,7 @@ import (
 //     (`new` / `prev` are the written and the overwritten value).
 func (x *Engine) setupConc(fr *Frame, st *State, fs *FuncSpec) {
 	x.sharedKeys = nil
+	x.sharedAddrs = nil
 	pkg := fr.fn.Pkg
 	seen := map[string]bool{}
 	for _, c := range fs.Shared {
@@ -23,6 +24,7 @@ func (x *Engine) setupConc(fr *Frame, st *State, fs *FuncSpec) {
 		if v.Addr == nil {
 			panic(fmt.Sprintf("%s:%d: contract error: shared target is not a location\n    in: %s", c.File, c.Line, c.Text))
 		}
+		x.sharedAddrs = append(x.sharedAddrs, v.Addr)
 		if !seen[v.Addr.Key] {
 			seen[v.Addr.Key] = true
 			x.sharedKeys = append(x.sharedKeys, v.Addr.Key)
@@ -44,9 +46,16 @@ func (x *Engine) setupConc(fr *Frame, st *State, fs *FuncSpec) {
 			}
 			env["new"] = Val{T: nv, Sort: "Int"}
 			env["prev"] = Val{T: prev, Sort: "Int"}
+			same := fmt.Sprintf("(= %s %s)", a.Ref, loc.Addr.Ref)
+			if a.Idx != "" {
+				env["idx"] = Val{T: a.Idx, Sort: "Int"} // the element written, when the watched location is a whole array
+				if loc.Addr.Idx != "" {
+					same = fmt.Sprintf("(and %s (= %s %s))", same, a.Idx, loc.Addr.Idx)
+				}
+			}
 			ev2 := &Eval{x: x, st: st, old: fr.entry, env: env, pkg: pkg}
 			g := x.safeEvalBool(ev2, c)
-			goal := fmt.Sprintf("(=> (and (= %s %s) %s) %s)", a.Ref, loc.Addr.Ref, cond, g)
+			goal := fmt.Sprintf("(=> (and %s %s) %s)", same, cond, g)
 			x.ordinals["onwrite:"+c.Label]++
 			x.obligeNoAssume(st, "onwrite", fmt.Sprintf("%s#%d", c.Label, x.ordinals["onwrite:"+c.Label]), goal, c.Text+" (atomic write at "+pos+")", pos)
 		}
